@@ -101,6 +101,19 @@ def statements(c, f5_known):
         add("auto q = au::%s.as<double>(); auv_print(@K, q.in(decltype(q)::unit));" % cn)
         if c["io"]:
             add("std::ostringstream os; os << au::%s; auv_print(@K, os.str().c_str());" % cn)
+    # labels used at RUN time (odr-use of the label objects: before C++17 every static constexpr member needs its namespace-scope definition)
+    add("auv_print(@K, au::mag_label(au::mag<3>() / au::mag<4>()));")
+    add("auv_print(@K, au::mag_label(au::mag<5>()));")
+    add("auv_print(@K, au::mag_label(au::Magnitude<au::Pi>{} / au::mag<2>()));")
+    add("auv_print(@K, static_cast<long long>(sizeof(au::mag_label(au::mag<1000>() / au::mag<7>()))));")
+    if us:
+        mk0 = "au::" + SPELL[us[0]][1]
+        add("auv_print(@K, au::unit_label(%s * au::mag<3>() / au::mag<4>()));" % mk0)
+        add("auv_print(@K, au::unit_label(au::pow<2>(%s) / au::pow<3>(au::root<2>(%s * au::mag<5>()))));" % (mk0, mk0))
+        add("auv_print(@K, au::unit_label(au::common_unit(%s * au::mag<6>(), %s * au::mag<10>())));" % (mk0, mk0))
+        add("auv_print(@K, au::unit_label(au::common_point_unit(au::%s{} * au::mag<6>(), au::%s{} * au::mag<10>())));" % (us[0], us[0]))    # point-unit slots take units, not quantity makers
+    if c["io"]:
+        add("std::ostringstream os; os << (au::mag<3>() / au::mag<4>()) << ' ' << au::mag<12>() << ' ' << au::ZERO; auv_print(@K, os.str().c_str());")
     # magnitude evaluation and classification (compile-time numerics must agree across compilers and standards)
     add("auv_print(@K, au::get_value<int>(au::mag<12>()));")
     add("auv_print(@K, static_cast<long long>(au::ZERO == au::ZERO));")
@@ -177,7 +190,7 @@ def run(ctx):
             results = {}
             for cfg in cfgs:
                 exe = os.path.join(d, "m_%s_%s.exe" % (cfg[0][0], cfg[1][-2:]))
-                cr = core.compile_one(cfg, p, exe, flags=["-O1"], timeout=900)
+                cr = core.compile_one(cfg, p, exe, flags=["-O0"], timeout=900)   # -O0: a missing definition of an odr-used object must not be optimised away
                 n_eval += 1
                 if cr.resource_limited:
                     results[cfg] = ("inconclusive", None); continue
@@ -203,7 +216,7 @@ def run(ctx):
             ref = list(outs)[0] if outs else None
             # single-file builds: no Au include path at all
             exe_s = os.path.join(d, "single.exe")
-            cmd = [single_cfg[0], "-std=" + single_cfg[1], "-O1", "-DAUV_SINGLE", "-DAUV_TWICE", "-DAUV_TWO_TUS", "-I" + os.path.join(d, "inc"), p, os.path.join(d, "other.cc"), "-o", exe_s]
+            cmd = [single_cfg[0], "-std=" + single_cfg[1], "-O0", "-DAUV_SINGLE", "-DAUV_TWICE", "-DAUV_TWO_TUS", "-I" + os.path.join(d, "inc"), p, os.path.join(d, "other.cc"), "-o", exe_s]
             rc3, o3, e3, s3, to3 = core.run_cmd(cmd, timeout=900)
             n_eval += 1
             if rc3 != 0:
@@ -236,7 +249,7 @@ def run(ctx):
                     # replay regenerates the single file: a small driver script is not expressible as one TU, so the replay is the multi-step command recorded here
                     rep = {"mode": "pyjudge", "judge": "auverif.props.c20:replay_single", "src": src or "int main(){}", "cfg": list(cfg or core.CONFIGS[0]), "params": {"case": c, "f5_known": f5_known}, "no_build": True}
                 elif kind in ("differential", "rejected"):
-                    rep = {"mode": "syntax", "expect": "ok", "src": src, "cfg": list(cfg)}
+                    rep = {"mode": "build", "expect": "ok", "src": src, "cfg": list(cfg), "flags": ["-O0"]}
                 else:
                     rep = {"mode": "pyjudge", "judge": "auverif.props.c20:replay_outputs", "src": src, "cfg": list(cfg), "params": {"case": c}, "no_build": True}
                 out[k] = {"what": "C20 %s: %s  subset=%s" % (kind, msg, json.dumps({"units": c["units"][:6], "constants": c["constants"], "io": c["io"]})), "replay": rep}
@@ -401,10 +414,10 @@ def replay_single(params, rc, out, err):
     p = os.path.join(d, "prog.cc"); open(p, "w").write(src); open(os.path.join(d, "other.cc"), "w").write(OTHER_TU)
     argv = [str(v) for v in c["vals"]]
     cfg = core.CONFIGS[0]
-    r1 = core.run_cmd([cfg[0], "-std=" + cfg[1], "-O1", "-DAUV_SINGLE", "-DAUV_TWICE", "-DAUV_TWO_TUS", "-I" + inc, p, os.path.join(d, "other.cc"), "-o", os.path.join(d, "s.exe")], timeout=900)
+    r1 = core.run_cmd([cfg[0], "-std=" + cfg[1], "-O0", "-DAUV_SINGLE", "-DAUV_TWICE", "-DAUV_TWO_TUS", "-I" + inc, p, os.path.join(d, "other.cc"), "-o", os.path.join(d, "s.exe")], timeout=900)
     if r1[0] != 0:
         return True, "single-file build fails: " + r1[2][-300:]
-    cr = core.compile_one(cfg, p, os.path.join(d, "m.exe"), flags=["-O1"])
+    cr = core.compile_one(cfg, p, os.path.join(d, "m.exe"), flags=["-O0"])
     if not cr.ok:
         return None, "multi-header build fails"
     o1 = core.run_cmd([os.path.join(d, "s.exe")] + argv)[1]
@@ -421,7 +434,7 @@ def replay_outputs(params, rc, out, err):
     p = os.path.join(d, "prog.cc"); open(p, "w").write(src)
     outs = set()
     for cfg in core.CONFIGS:
-        cr = core.compile_one(cfg, p, os.path.join(d, "x.exe"), flags=["-O1"])
+        cr = core.compile_one(cfg, p, os.path.join(d, "x.exe"), flags=["-O0"])
         if cr.ok:
             outs.add(core.run_cmd([os.path.join(d, "x.exe")] + [str(v) for v in c["vals"]])[1])
     return len(outs) > 1, "%d distinct outputs across configurations" % len(outs)
